@@ -393,3 +393,9 @@ def r8(ctx, R):
     from . import c01, c07
     c01.r4(ctx, R)
     c07.r8(ctx, R)
+
+
+@rule('C06', 'C06.R9', 'a step starts from the value it is given, not from a remembered history: the multistep sweeper re-creates its history whenever the step does not continue it - restarted step (starts before the history ends) or new run (two-sided test; shared with C19.R10)', floor=2)
+def r9(ctx, R):
+    from . import c19
+    c19.multistep_reset(ctx, R)
